@@ -48,7 +48,7 @@ def cases(tier):
                        "payload": {"mode": "pair", "names": [a, b, c], "scope": scope, "prefix": "field_"}}
 
 
-SCOPES = ["attr", "query", "header", "schema", "enum", "operation", "tag", "title"]
+SCOPES = ["attr", "attr-parents", "attr-inherited", "query", "header", "schema", "enum", "operation", "tag", "title"]
 
 
 # ------------------------------------------------------------------------------------------------- seam sweep
@@ -104,6 +104,14 @@ def _doc(scope, names):
     ok = {"200": {"description": "d"}}
     if scope == "attr":
         return gen.base_doc({"M": {"type": "object", "properties": {n: {"type": "integer"} for n in names}}})
+    if scope == "attr-parents":      # one model's attributes, each inherited from a different allOf parent
+        comps = {f"Parent{i}": {"type": "object", "properties": {n: {"type": "integer"}}} for i, n in enumerate(names)}
+        comps["M"] = {"allOf": [{"$ref": f"#/components/schemas/Parent{i}"} for i in range(len(names))]}
+        return gen.base_doc(comps)
+    if scope == "attr-inherited":    # the first inherited, the others declared by the model itself
+        comps = {"Parent0": {"type": "object", "properties": {names[0]: {"type": "integer"}}},
+                 "M": {"allOf": [{"$ref": "#/components/schemas/Parent0"}, {"type": "object", "properties": {n: {"type": "integer"} for n in names[1:]}}]}}
+        return gen.base_doc(comps)
     if scope in ("query", "header"):
         return gen.base_doc(None, paths={"/x": {"get": {"operationId": "theOp", "parameters": [
             {"name": n, "in": scope, "schema": {"type": "integer"}} for n in names], "responses": ok}}})
@@ -129,8 +137,8 @@ def nfkc(s):
 def _scope_names(scope, res):
     """Python names the generated scope holds (counted on the AST / the tree)."""
     pkg = res.pkg_tree()
-    if scope == "attr":
-        m = res.models[0] if res.models else None
+    if scope.startswith("attr"):
+        m = next((x for x in res.models if x["name"] == "/components/schemas/M"), None)
         if m is None or f"models/{m['module']}.py" not in pkg:
             return None
         mod = ast.parse(pkg[f"models/{m['module']}.py"])
